@@ -18,7 +18,7 @@ class Check(MacroCheck):
     theorems = ['C16_unmock_arm_spec', 'C16_no_function_no_arm', 'C16_unmock_arm_present_for_mut', 'C16_unmock_receiver', 'C16_runtime_unmock', 'C16_source_dispatch', 'C16_source_eval_result_dispatch', 'C16_source_respond']
     case_prefixes = ('ref.unmock', 'mut.unmock', 'pin.unmock', 'async.unmock', 'own.unmock', 'rc.unmock')
     runtime = Runtime()
-    facts_of_interest = r'(call unmock|arm \S*Unmock|call report|arm any)'
+    facts_of_interest = r'(call unmock|arm \S*Unmock|call report|arm any|path=)'      # path=: the method named by a cannot-unmock panic
 
     def explore_into(self, rep, tier, seed, ir=True, merge=False):
         super().explore_into(rep, tier, seed, ir=ir, merge=merge)
